@@ -446,6 +446,31 @@ def _lemmas(job):
       [z3.fpGEQ(x, nlo), z3.fpLEQ(x, neg2), z3.Not(qx.t < 0)])
   run('L4b', 'for every double x in [0,2^40]: q(x) >= 0 (never rejected)',
       [in_range(x), z3.Not(qx.t >= 0)])
+  # L6 explicit cutoff argument: the formula of the docstring for every cutoff
+  # in [0,1] (0.0 and 1.0 included), and the default equals the constant
+  c_ = z3.FP('c', fpk.F64)
+  qc = tr.function(fnode, {'unquantized_seconds': fpk.V(x, 'fp'),
+                           'steps_per_second': fpk.iv(1),
+                           'quantize_cutoff': fpk.V(c_, 'fp')})
+  one = z3.FPVal(1.0, fpk.F64)
+  spec = z3.fpToSBV(fpk.RTZ, z3.fpAdd(fpk.RNE, x, z3.fpSub(fpk.RNE, one, c_)),
+                    fpk.BV)
+  c_rng = z3.And(z3.fpGEQ(c_, z3.FPVal(0.0, fpk.F64)), z3.fpLEQ(c_, one))
+  cpts = [(0.3, 0.0), (2.0, 0.0), (2.2, 0.25), (2.75, 0.25), (2.2, 1.0),
+          (3.0, 1.0), (0.0, 0.0), (7.5, 0.5)]
+  wants_c = real([p_[0] for p_ in cpts], [p_[1] for p_ in cpts])
+  for (xv, cv), want in zip(cpts, wants_c):
+    got = fpk.eval_concrete(qc, [(x, xv), (c_, cv)])
+    if got != want:
+      return {'status': 'error', 'error': 'FP translator disagrees with '
+              'quantize_to_step(%r, 1, %r): %r vs %r' % (xv, cv, got, want)}
+  run('L6a', 'for every double x in [0,2^40] and cutoff c in [0,1]: '
+      'quantize_to_step(x,1,c) = int(x + (1 - c))',
+      [in_range(x), c_rng, qc.t != spec], model={'x': x, 'c': c_})
+  run('L6b', 'for every double x in [0,2^40]: quantize_to_step(x,1) = '
+      'quantize_to_step(x,1,QUANTIZE_CUTOFF)',
+      [in_range(x), z3.fpEQ(c_, z3.FPVal(_cutoff_const(), fpk.F64)),
+       qc.t != qx.t], model={'x': x, 'c': c_})
   # L-stretch (NRA over the reals, symbolic k, qpm, steps_per_quarter):
   # the argument of floor() is unchanged when times are multiplied by k and
   # the tempo divided by k.  Together with h1_relative (result = floor(t*sps
@@ -526,6 +551,8 @@ def _lemmas(job):
         vals = {'lemma': o['lemma'], 'x': o['model']['x_hex']}
         if 'y_hex' in o['model']:
           vals['y'] = o['model']['y_hex']
+        if 'c_hex' in o['model']:
+          vals['c'] = o['model']['c_hex']
         viol.append({'label': '%s in binary64' % o['lemma'], 'values': vals,
                      'source': 'solver'})
       else:
@@ -558,12 +585,17 @@ def _real_quantize_to_step():
   import sys  # pylint: disable=g-import-not-at-top
   verif = os.path.dirname(os.path.dirname(os.path.abspath(__file__)))
 
-  def call_many(vs):
+  def call_many(vs, cutoffs=None):
+    hs = [float(v).hex() for v in vs]
+    if cutoffs is None:
+      call = '[f(float.fromhex(h), 1) for h in %r]' % (hs,)
+    else:
+      call = ('[f(float.fromhex(h), 1, quantize_cutoff=k) for h, k in '
+              'zip(%r, %r)]' % (hs, [float(k) for k in cutoffs]))
     code = ('import sys, json\nsys.path.insert(0, %r)\n'
             'from engine import loader\nenv = loader.RealEnv()\n'
             'f = env.mod("sequences_lib").quantize_to_step\n'
-            'print(json.dumps([f(float.fromhex(h), 1) for h in %r]))' %
-            (verif, [float(v).hex() for v in vs]))
+            'print(json.dumps(%s))' % (verif, call))
     p = subprocess.run([sys.executable, '-c', code], stdout=subprocess.PIPE,
                        stderr=subprocess.PIPE, text=True)
     return json.loads(p.stdout.strip().splitlines()[-1])
@@ -662,6 +694,16 @@ def h_lemma_witness(c):
             'L5 steps per second not exact for an integer tempo')
     return
   x = float.fromhex(c.values['x'])
+  if lemma in ('L6a', 'L6b'):
+    k = float.fromhex(c.values['c'])
+    got = sl.quantize_to_step(x, 1, quantize_cutoff=k)
+    if lemma == 'L6a':
+      c.check(got == int(x + (1 - k)),
+              'L6a explicit quantize_cutoff follows int(t*sps + (1 - cutoff))')
+    else:
+      c.check(got == sl.quantize_to_step(x, 1),
+              'L6b default cutoff is QUANTIZE_CUTOFF')
+    return
   q = sl.quantize_to_step(x, 1)
   if lemma == 'L1':
     c.check(abs(Fraction(q) - Fraction(x)) <= Fraction(1, 2), 'L1')
